@@ -265,11 +265,16 @@ class C01(Prop):
     ]
     PARTIAL = {}
     ASSUMPTIONS = [
-        "samples are modelled as integers: exact for integer-valued / dyadic doubles; rounding of a-b for arbitrary doubles and underflow of diffs[:-1]*diffs[1:] in find_turns are not modelled (the oracle additionally runs the chunking relation on non-dyadic doubles)",
-        "numpy array glue of process() (concatenate, uintp casts) is covered by the correspondence only",
+        "samples are modelled as integers: exact for integer-valued / dyadic doubles; rounding and overflow of a-b for arbitrary doubles are not modelled (the oracle additionally runs the chunking relation on non-dyadic doubles and on signals scaled by 2**e, e in -600..900)",
+        "numpy array glue of process() (concatenate, uintp casts; list / int64 / non-contiguous / Series input) is covered by the correspondence only",
+        "the FKM detector reports no sample index and (by the library's design, doc string of AbstractDetector) no chunk sizes to the recorder: the recorder's bookkeeping clause is read as being about the detectors that report indices; residual_index of the FKM detector is covered by the chunk-independence statements",
+        "process(flush=True) and empty chunks are outside the quantifier: neither driven nor proved (on an empty chunk the literal model follows the code, the stack model does not - recorded as an example in Proofs/C01Literal.lean)",
+        "the extension is rebuilt from extension.pyx with -O3 as /repo/setup.py does; detector.residual_index is a float64 array on the real code (np.append promotes) and is compared as integers",
     ]
     RULE = ("case = (detector, integer signal, partition into non-empty chunks); quick: all signals over 4 values up to "
-            "length 5 x all partitions + seeded random signals (<= 400 samples, 5 shapes, <= 40 chunks); non-trivial = "
+            "length 5 (thorough: 6) x all partitions + seeded random signals (<= 400 samples, 6 shapes incl. near-ties 2**k +- 1, <= 40 chunks), "
+            "some also scaled by 2**e or fed as list / int64 / non-contiguous view / Series; lines compared: the stack model (rf), the recorder's "
+            "chunk_local_index of EVERY sample index (cli), the literal fourpoint_loop transcription (rf_lit); non-trivial = "
             "at least one recorded cycle and more than one chunk; distinct by (detector, signal, partition)")
 
     def __init__(self):
@@ -277,16 +282,13 @@ class C01(Prop):
         self.exhaustive = False
 
     def generate(self, rng, tier):
-        maxlen = 5 if tier == "quick" else 6   # length 7 x all partitions is 3.6 M cases (30 min): beyond "several minutes"
+        maxlen = 5 if tier == "quick" else 6   # length 7 x all partitions is 3.1 M cases (30 min): beyond "several minutes"
         alphabet = [0, 1, 2, 3]
         self.exhaustive = True
         self.stats["exhaustive_scope"] = f"all signals over {alphabet} of length 1..{maxlen} x all partitions x 3 detectors"
         for n in range(1, maxlen + 1):
             for sig in itertools.product(alphabet, repeat=n):
-                # w.l.o.g. the first strict step goes up (negation symmetry is C03); keeps the scope small
                 for lens in compositions(n):
-                    if len(lens) == 1 and n > 1:
-                        pass
                     for det in DETS:
                         yield {"det": det, "signal": list(sig), "lens": lens, "mode": "exh"}
         nrand = 600 if tier == "quick" else 20000
@@ -431,11 +433,14 @@ class C02(Prop):
     PARTIAL = {}
     ASSUMPTIONS = [
         "samples are modelled as integers (see C01)",
-        "the Clormann-Seeger rule is stated without the two 'not a reversal' guards of the 1986 listing because its input is a reversal sequence (DESIGN C02)",
+        "the Clormann-Seeger rule is stated without the two 'not a reversal' guards of the 1986 listing because its input is a reversal sequence (DESIGN C02); Spec.hcm has the loop shape of the detector model (same author) - the reading of the four-point rule is pinned to a published example (Haibach fig. 3.3-30, C02.literal_haibach_*), for HCM only repository test vectors are kernel-checked",
+        "'every reported index addresses a sample whose value is the reported value' is read as n/a for the FKM detector, which reports no cycle indices",
     ]
-    RULE = ("case = (detector, integer signal of length >= 2) fed in one piece; exhaustive small scope + seeded random signals "
-            "with many ties; model's spec functions (turning points, textbook four-point rule, Clormann-Seeger HCM) are "
-            "compared with the implementation's output; non-trivial = at least one cycle; distinct by (detector, signal)")
+    RULE = ("case = (detector, integer signal of length >= 2), fed in one piece, in random chunks, scaled by 2**e (e in -600..900), and - for all "
+            "signals over {0,1,2} up to length 5 (thorough 6) - in every partition; exhaustive small scope + seeded random signals "
+            "with many ties and near-ties; oracle-only cases on non-integer doubles; model's spec functions (turning points, textbook four-point "
+            "rule, Clormann-Seeger HCM) are compared with the oracle's reference rules and the detector model with the implementation's output; "
+            "non-trivial = at least one cycle; distinct by (detector, signal)")
 
     def __init__(self):
         self.stats = {"by_detector": {}, "by_mode": {}, "cycles_total": 0, "tie_cases": 0, "double_cases": 0}
@@ -571,9 +576,6 @@ def insert_nonreversals(rng, sig):
         out.append(v)
         if i + 1 < len(sig) and rng.random() < 0.5:
             lo, hi = sorted((v, sig[i + 1]))
-            for _ in range(rng.randint(1, 2)):
-                # keep the inserted run monotone between the two neighbours
-                pass
             k = rng.randint(1, 3)
             vals = sorted(rng.randint(lo, hi) for _ in range(k))
             if sig[i + 1] < v:
@@ -621,11 +623,15 @@ class C03(Prop):
     PARTIAL = {}
     ASSUMPTIONS = [
         "samples are modelled as integers (see C01); NaN samples as `none`",
-        "pandas Series -> ndarray conversion is glue, covered by the oracle on four index types",
+        "pandas Series -> ndarray conversion is glue, covered by the oracle on four index types (also in chunks and with NaN samples)",
+        "NaN samples: four-point and FKM detectors are modelled (Proofs/C03Nan.lean); the three-point detector on NaN samples and the NaN warning are covered by the oracle only",
+        "affine maps are proved for integer a, b (a > 0; a != 0 for the index statement); the oracle uses integer maps and exact powers of two",
     ]
     RULE = ("case = integer signal (+ NaN positions / refinement seed / affine map); correspondence on find_turns (model scan, "
-            "model numpy transcription, implementation) incl. NaN re-indexing; oracle: refinement by non-reversal samples, "
-            "negation, positive affine maps, Series index types; non-trivial = at least one turning point")
+            "model numpy transcription, implementation) incl. NaN re-indexing, and - for every signal over {0,1,2,NaN} up to length 5 (thorough 7), "
+            "NaN away from the ends - the NaN detector models (rf_nan fourpoint / fkm) in one piece, every cut into two and single-sample chunks; "
+            "oracle: refinement by non-reversal samples (one piece and chunked, values and the exact index map, also on non-integer doubles), "
+            "negation, positive affine maps, scaling by 2**e, Series index types (chunked, with NaN); non-trivial = at least one turning point")
 
     def __init__(self):
         self.stats = {"turn_cases": 0, "nan_cases": 0, "sym_cases": 0, "series_cases": 0}
